@@ -12,6 +12,7 @@ import (
 	"strings"
 
 	"google.golang.org/protobuf/encoding/protowire"
+	"google.golang.org/protobuf/proto"
 	"google.golang.org/protobuf/reflect/protoreflect"
 	"google.golang.org/protobuf/types/dynamicpb"
 )
@@ -372,6 +373,37 @@ func usesUnmodelled(m protoreflect.Message) bool {
 	return bad
 }
 
+// uninitExtensionValue: somewhere in m a proto2 extension of message type is set to a value with an unset required field
+func uninitExtensionValue(m protoreflect.Message) bool {
+	bad := false
+	var sub func(fd protoreflect.FieldDescriptor, v protoreflect.Value) bool
+	sub = func(fd protoreflect.FieldDescriptor, v protoreflect.Value) bool {
+		if fd.Message() == nil || fd.IsMap() && fd.MapValue().Message() == nil {
+			return true
+		}
+		each := func(mv protoreflect.Message) {
+			if fd.IsExtension() && proto.CheckInitialized(mv.Interface()) != nil {
+				bad = true
+			} else if uninitExtensionValue(mv) {
+				bad = true
+			}
+		}
+		switch {
+		case fd.IsMap():
+			v.Map().Range(func(_ protoreflect.MapKey, e protoreflect.Value) bool { each(e.Message()); return !bad })
+		case fd.IsList():
+			for i := 0; i < v.List().Len() && !bad; i++ {
+				each(v.List().Get(i).Message())
+			}
+		default:
+			each(v.Message())
+		}
+		return !bad
+	}
+	m.Range(sub)
+	return bad
+}
+
 // canonMapOrder sorts the records of every map field by the wire bytes of the entry key, recursively
 // (lengths do not change). Go map iteration order is the only nondeterminism of the generated Marshal.
 func canonMapOrder(md protoreflect.MessageDescriptor, b []byte) []byte {
@@ -447,6 +479,14 @@ func modelMarshal(md protoreflect.MessageDescriptor, ref protoreflect.Message, n
 	ms := modelSchemaFor(md)
 	if !ms.ok || usesUnmodelled(ref) {
 		Extra("model-skipped-unmodelled-feature", 1)
+		return
+	}
+	if merr != nil && !panicked && uninitExtensionValue(ref) {
+		// Marshal failed, and a message-typed EXTENSION value lacks a required field: Gogo and the golang v1 API keep an
+		// extension that arrived as bytes undecoded and refuse to hand out such a value (GetExtension returns an
+		// error), so what Size() reports for this unmarshalable message depends on the owning runtime — there are no
+		// bytes whose length it could equal. Only "both fail" is compared (the oracle above does that).
+		Extra("model-skipped-failed-marshal-with-uninitialised-extension-value", 1)
 		return
 	}
 	impl := fmt.Sprintf("size=%d ok %s", size, hx(canonMapOrder(md, b)))
